@@ -23,6 +23,7 @@ BACKENDS = {
     'minisat': [], 'cadical': ['--sat-solver', 'cadical'], 'kissat': ['--external-sat-solver', 'kissat'],
     'z3': ['--z3'], 'cvc5': ['--cvc5'],
 }
+RT_LOOPS = ['__verif_memset.0', '__verif_memcpy.0', '__verif_memmove.0', '__verif_memmove.1']
 CBMC_BASE = ['--unwinding-assertions', '--drop-unused-functions', '--no-malloc-may-fail',
              '--no-signed-overflow-check', '--no-undefined-shift-check', '--no-pointer-primitive-check',
              '--object-bits', '10', '--json-ui']
@@ -40,10 +41,10 @@ class Unit:
 class Ob:
     """one proof obligation = one cbmc run of one harness function"""
     def __init__(self, name, unit, fn, defines=(), unwind=8, unwindset=(), backend='minisat', timeout=None,
-                 flags=(), bound='', kf=(), min_witnesses=1, note=''):
+                 flags=(), bound='', kf=(), min_witnesses=1, note='', mem_unwind=130):
         self.name = name; self.unit = unit; self.fn = fn; self.defines = list(defines); self.unwind = unwind
         self.unwindset = list(unwindset); self.backend = backend; self.timeout = timeout; self.flags = list(flags)
-        self.bound = bound; self.kf = list(kf); self.min_witnesses = min_witnesses; self.note = note
+        self.mem_unwind = mem_unwind; self.bound = bound; self.kf = list(kf); self.min_witnesses = min_witnesses; self.note = note
 
 
 def sh(cmd, timeout=None, cwd=None, mem_gb=None, env=None):
@@ -94,7 +95,7 @@ class Runner:
         if rc != 0:
             raise Inconclusive('clang++ failed on %s wrappers (does /repo still compile?):\n%s' % (u.name, err[-3000:]))
         rc, out, err, t2 = sh([sys.executable, os.path.join(ROOT, 'tools', 'ir2c.py'), ll, os.path.join(d, 'gen'),
-                               '--inert', ','.join(u.inert)] + u.ir2c_flags, timeout=600)
+                               '--inert', ';;'.join(u.inert)] + u.ir2c_flags, timeout=600)
         if rc != 0:
             raise Inconclusive('ir2c failed on %s: %s' % (u.name, err[-3000:]))
         meta = json.load(open(os.path.join(d, 'gen.json')))
@@ -106,7 +107,7 @@ class Runner:
         for hp in self.hpaths(u):
             hsyms |= set(re.findall(r'\b((?:ext_|hook_|__verif_)\w+)\s*\(', open(hp).read()))
         unmod = [n for n, c in meta['externals'].items()
-                 if c not in rtsyms and c not in hsyms and n not in u.inert and not n.startswith('__verif_')]
+                 if c not in rtsyms and c not in hsyms and n not in meta['inert'] and not n.startswith('__verif_')]
         if unmod:
             raise Inconclusive('unit %s: external functions without model or inert declaration: %s' % (u.name, unmod))
         # real code, native
@@ -148,7 +149,8 @@ class Runner:
         cmd += ['-I' + RT, '-I' + u.dir, '-I' + os.path.join(ROOT, 'props', self.id)]
         cmd += ['-D' + x for x in list(ob.defines) + list(extra_defines)]
         cmd += ['--function', ob.fn, '--unwind', str(ob.unwind)] + CBMC_BASE + BACKENDS[backend or ob.backend] + ob.flags
-        for us in ob.unwindset: cmd += ['--unwindset', us]
+        us = list(ob.unwindset) + ['%s:%d' % (l, ob.mem_unwind) for l in RT_LOOPS if not any(x.startswith(l + ':') for x in ob.unwindset)]
+        cmd += ['--unwindset', ','.join(us)]
         if trace_property: cmd += ['--trace', '--property', trace_property]
         return cmd
 
@@ -182,7 +184,10 @@ class Runner:
         r['witnesses_dead'] = sorted(set(p['description'][8:] for p in wit if p['status'] != 'FAILURE') - set(r['witnesses_fired']))
         r['failed'] = [(p['property'], p['description']) for p in bad]
         r['n_props'] = len(r['props'])
-        r['status'] = 'fail' if bad else 'pass'
+        real = [p for p in bad if not re.search(r'\.unwind\.\d+$', p['property'])]
+        r['status'] = 'fail' if real else ('unwind' if bad else 'pass')
+        if real: r['failed'] = [(p['property'], p['description']) for p in real]
+        elif bad: r['errors'].append('unwinding bound too small: ' + ', '.join(p['property'] for p in bad))
         return r
 
     def decide(self, ob, extra_defines=()):
@@ -227,6 +232,13 @@ class Runner:
             f.write('/* inputs of the cbmc counterexample: property %s obligation %s\n   violated: %s (%s) */\n' % (self.id, ob.name, descr, prop_name))
             for k, v in vals.items():
                 f.write('#define REPLAY_%s %s\n' % (k, self.cinit(v)))
+            # inputs of the other harness functions of the same source file (never executed in this replay)
+            for hp in self.hpaths(u):
+                txt = open(hp).read()
+                for m in re.finditer(r'\bIN\(\s*[^,()]+,\s*(\w+)\s*\)', txt):
+                    if m.group(1) not in vals: vals[m.group(1)] = None; f.write('#define REPLAY_%s 0\n' % m.group(1))
+                for m in re.finditer(r'\bIN_ARR\(\s*[^,()]+,\s*(\w+)\s*,', txt):
+                    if m.group(1) not in vals: vals[m.group(1)] = None; f.write('#define REPLAY_%s {0}\n' % m.group(1))
         defs = list(ob.defines) + list(extra_defines)
         meta = {'property': self.id, 'obligation': ob.name, 'unit': ob.unit, 'function': ob.fn, 'defines': defs,
                 'violated': descr, 'cbmc_property': prop_name, 'tier': self.tier}
@@ -248,7 +260,8 @@ class Runner:
                               '-I' + os.path.join(ROOT, 'props', self.id)] + ['-D' + x for x in defs] + san + self.hpaths(u) +
                              [os.path.join(RT, 'native_main.c'), real] + u.real_extra + ['-o', exe, '-lstdc++', '-lm'], timeout=600)
         if rc != 0: return 'replay-build-failed', err[-2000:]
-        rc, out, err, _ = sh([exe], timeout=120)
+        env = dict(os.environ); env['ASAN_OPTIONS'] = 'detect_leaks=0'
+        rc, out, err, _ = sh([exe], timeout=120, env=env)
         txt = (out + err)[-3000:]
         if rc == 0: return 'solver-only', txt
         if rc == 3 and 'REPLAY-ASSUME-FALSE' in out: return 'assumption-false', txt
@@ -308,7 +321,7 @@ class Runner:
             elif r['status'] == 'fail':
                 pn, descr = r['failed'][0]
                 rdir, status, out = self.make_replay(ob, kfd, pn, descr)
-                violations.append({'obligation': name, 'violated': [d for _, d in r['failed']][:6], 'replay': rdir, 'replay_status': status,
+                violations.append({'obligation': name, 'violated': ['%s [%s]' % (d, p) for p, d in r['failed']][:6], 'replay': rdir, 'replay_status': status,
                                    'replay_output': out[-600:]})
             else:
                 inconclusive.append('obligation %s: %s %s' % (name, r['status'], '; '.join(r['errors'])[:600]))
@@ -342,7 +355,7 @@ class Runner:
             'obligations': len(results), 'discharged': sum(1 for _, _, r in results.values() if r['status'] == 'pass'),
             'solver_time_s': round(solver_s, 1),
             'functions_encoded': len(enc), 'xtl_functions_encoded_sample': xtl_enc[:40],
-            'units': [{'name': u.name, 'cxxflags': u.cxxflags, 'inert_stubs': u.inert, 'external_functions': sorted(u.meta['externals']),
+            'units': [{'name': u.name, 'cxxflags': u.cxxflags, 'inert_stubs': u.meta['inert'], 'external_functions': sorted(u.meta['externals']),
                        'rt_models': u.rt, 'functions_encoded': len(u.meta['defined'])} for u in self.units.values()],
             'bounds': getattr(self.prop, 'BOUNDS', {}).get(self.tier, getattr(self.prop, 'BOUNDS', '')),
             'not_covered': getattr(self.prop, 'NOT_COVERED', []),
